@@ -651,6 +651,34 @@ fn do_merge(ctx: &mut Ctx, st: &mut SeqState, scn: &StoreScn, or: &Oracles, i: u
     let rel = s.rel.clone();
     let before_img = dir_image(ctx.sim, &rel, u64::MAX);
     let before_scan = if or.merge_preserves || or.space { scan_all(&h, &scn.keys).ok() } else { None };
+    // C13: is every non-empty data file eligible by the documented thresholds, on TRUE numbers?
+    // (dead bytes, share of dead entries among all entries, file size; which entries are live is
+    // taken from the index, whose correctness is C19's subject)
+    let eligible_by_truth = if or.space {
+        let d = h.verif_dump();
+        let cfg = &s.cfg;
+        let mut all = true;
+        let mut any = false;
+        for (name, bytes) in before_img.iter() {
+            let id = match scan::parse_name(name) {
+                Some((id, false)) if !bytes.is_empty() => id,
+                _ => continue,
+            };
+            let (recs, _torn) = scan::scan_data(bytes);
+            let live_pos: BTreeSet<u64> = d.index.iter().filter(|e| e.fileid == id).map(|e| e.pos).collect();
+            let live = recs.iter().filter(|r| live_pos.contains(&r.pos)).count() as u64;
+            let dead = recs.len() as u64 - live;
+            let dead_bytes: u64 = recs.iter().filter(|r| !live_pos.contains(&r.pos)).map(|r| r.len).sum();
+            let frag = if dead == 0 { 0.0 } else { dead as f64 / (dead + live) as f64 };
+            any = true;
+            if !(dead_bytes > cfg.thr_dead || frag > cfg.thr_frag || (bytes.len() as u64) < cfg.thr_small) {
+                all = false;
+            }
+        }
+        any && all
+    } else {
+        false
+    };
     let seq0 = io_seq(ctx.sim);
     let r = merge(&h);
     st.merged_ever = true;
@@ -680,9 +708,12 @@ fn do_merge(ctx: &mut Ctx, st: &mut SeqState, scn: &StoreScn, or: &Oracles, i: u
     // every non-empty data file is eligible when the thresholds say so, whatever the pass then
     // did: a small-file threshold of u64::MAX selects every file that holds an entry
     let eligible_by_config = st.store.as_ref().map(|s| s.cfg.thr_small == u64::MAX).unwrap_or(false);
-    let all_eligible = all_unlinked || eligible_by_config;
-    if eligible_by_config && !all_unlinked {
+    let all_eligible = all_unlinked || eligible_by_config || eligible_by_truth;
+    if (eligible_by_config || eligible_by_truth) && !all_unlinked {
         ctx.sim.probe("all_eligible_by_thresholds_but_not_all_removed");
+    }
+    if eligible_by_truth && !eligible_by_config {
+        ctx.sim.probe("all_eligible_by_dead_bytes_or_fragmentation_alone");
     }
     let none = unlinked.iter().all(|id| !nonempty_before.contains(id));
     if all_eligible && !nonempty_before.is_empty() {
